@@ -189,3 +189,21 @@ func vpH_C03_roundtrip() {
 	vpAssert(p.Header.SessionID == h.SessionID, "C03.rt.sid")
 	vpReach("C03.rt.end")
 }
+
+// long shared secrets (the hash input is longer than one MD5 block)
+func vpH_C03_longsecret__4(c int) {
+	secret := vpBytesN([]int{58, 59, 64, 100}[c])
+	clear := vpBytesN(vpInt(1, 17))
+	h, minor, seq := vpC03Header(len(clear))
+	h.Flags &^= UnencryptedFlag
+	body := make([]byte, len(clear))
+	copy(body, clear)
+	p := &Packet{Header: h, Body: body}
+	err := crypt(secret, p)
+	vpAssert(err == nil, "C03.longsecret.no-error")
+	pad := vpPad(uint32(h.SessionID), secret, 0xc0|minor, seq, len(clear))
+	for i := 0; i < len(clear) && i < len(p.Body); i++ {
+		vpAssert(p.Body[i] == clear[i]^pad[i], "C03.longsecret.pad")
+	}
+	vpReach("C03.longsecret.end")
+}
